@@ -497,6 +497,8 @@ impl FixtureDatabase {
 
         // Sort by file path, then by fixture name for deterministic output
         unused.sort_by(|a, b| a.0.cmp(&b.0).then_with(|| a.1.cmp(&b.1)));
+        // A fixture redefined in the same file is one (file, name) entry, not one per definition
+        unused.dedup();
         unused
     }
 }
